@@ -308,6 +308,11 @@ func All() []Params {
 		// more indices than any fixed-size queue of them would hold
 		Params{Variant: "Do", N: 1100, P: 2, Ctx: "live", Procs: 2},
 		Params{Variant: "DoContext", N: 1100, P: 3, Ctx: "live", Procs: 2},
+		// thousands of indices, not a multiple of anything a hand-out in blocks would use: the last ones are served too
+		Params{Variant: "Do", N: 2051, P: 3, Ctx: "live", Procs: 2},
+		Params{Variant: "Map", N: 5003, P: 4, Ctx: "live", Procs: 2},
+		Params{Variant: "DoContext", N: 2053, P: 2, Ctx: "live", Procs: 2},
+		Params{Variant: "MapContext", N: 4099, P: 3, Ctx: "live", Procs: 2},
 		Params{Variant: "Map", N: 3, P: 2, Ctx: "live", Procs: 2},
 		Params{Variant: "Map", N: 2, P: 0, Ctx: "live", Procs: 3},
 		Params{Variant: "MapContext", N: 3, P: 2, Ctx: "live", Procs: 2},
